@@ -1,5 +1,5 @@
 CONSTANTS
-  Part = "codec"
+  Part = "posth"
   Keys <- MCKeys
   MacStrs <- MCMacStrs
   WinStrs <- MCWinStrs
@@ -9,12 +9,10 @@ CONSTANTS
   CUnits <- MCUnits
   CCps <- MCCps
   MaxOps = 4
-  AllowSharedMutation = FALSE
+  AllowSharedMutation = TRUE
   Pairs <- MCPairs
   BaseOf <- MCBaseOf
 INIT Init
 NEXT Next
 CHECK_DEADLOCK FALSE
-INVARIANT CodecLaws
-INVARIANT MacTableSize
-INVARIANT StdNamesDistinct
+INVARIANT SharedIntact
